@@ -45,6 +45,23 @@ Theorem C01_no_argument_lost :
 Proof. exact no_argument_lost. Qed.
 Print Assumptions C01_no_argument_lost.
 
+(* The same on the re-synthesised command line (generate_compile_commands, local form): it holds every word of every
+   listed argument in its normalised rendering, every -Xclang argument, the compilation flag, the output, and ends with
+   the single input. *)
+Theorem C01_command_complete :
+  forall (T : tables) (E : env) (argv : list bytes) (p : parsed),
+  parse_arguments T E argv = ROk p ->
+  exists al xl output,
+    tokens_of T (sel_of E) (dd_of E) (e_files E) argv = (al, TEnd) /\
+    tokens_of T SelMerged None (e_files E) (xvals al) = (xl, TEnd) /\
+    (forall a w, In a al -> is_list_dest (dest_of T a) = true -> In w (render_norm a) -> In w (compile_command T E p)) /\
+    (forall a d w, In a xl -> x_dest_of T a = Some d -> is_list_dest d = true -> In w (x_words a) ->
+                   In w (compile_command T E p)) /\
+    In (p_cflag p) (compile_command T E p) /\ In output (compile_command T E p) /\
+    last (compile_command T E p) [] = p_input p /\ inputs al = [p_input p].
+Proof. exact command_complete. Qed.
+Print Assumptions C01_command_complete.
+
 (* The model's fuel never runs out: parse_arguments is a total function of the argument vector for any tables and any
    @-files, self-including ones too (the expansion counter of ExpandIncludeFile — the fix for the hang — bounds it). *)
 Theorem C01_parse_total :
